@@ -741,6 +741,46 @@ fn v4_range_to_prefixes_span8() { v4_decomp_body(7, 4); }
 #[kani::unwind(13)]
 fn v4_range_to_prefixes_span64_t() { v4_decomp_body(63, 10); }
 
+fn v6_decomp_body(max_span: u128, max_prefixes: usize) {
+    let lo: u128 = kani::any();
+    let hi: u128 = kani::any();
+    kani::assume(lo <= hi && hi - lo <= max_span);
+    let x: u128 = kani::any();
+    let range = AddressRange::new(Addr::from_bits(lo), Addr::from_bits(hi));
+    let mut count = 0usize;
+    let mut next_start: Option<u128> = Some(lo);
+    let mut covered = false;
+    for p in range.to_v6_prefixes() {
+        let plo = p.min().to_bits();
+        let phi = p.max().to_bits();
+        let len = p.addr_len();
+        assert!(len <= 128);
+        let size_m1 = host_mask_v6(len);
+        assert!(plo & size_m1 == 0 && phi == plo | size_m1);
+        assert!(next_start == Some(plo));
+        next_start = phi.checked_add(1);
+        if plo <= x && x <= phi { covered = true; }
+        count += 1;
+        assert!(count <= max_prefixes);
+    }
+    kani::cover!(count == 1);
+    kani::cover!(count >= 3);
+    kani::cover!(hi == u128::MAX);
+    assert!(next_start == hi.checked_add(1));
+    assert_eq!(covered, lo <= x && x <= hi);
+}
+
+/// @tier quick thorough
+/// @fn rpki::repository::resources::ipres::AddressRange::to_v6_prefixes
+/// @bounds every IPv6 range [lo, hi] at an arbitrary 128-bit position with
+///   at most 8 addresses (up to 4 prefixes); one witness address; unwind 7
+/// @says as v4_range_to_prefixes_span8 for the 128-bit decomposition, also
+///   when the range ends at the last address (no shift or add overflow)
+/// @out longer ranges
+#[kani::proof]
+#[kani::unwind(7)]
+fn v6_range_to_prefixes_span8() { v6_decomp_body(7, 4); }
+
 //------------ L1: DER decoding of single ranges -------------------------------------
 
 /// @tier off
